@@ -107,13 +107,20 @@ def generate(rng, index, tier):
                         lk = dict(lookups[-1])          # the same path looked up again (same vnode, same text): still a lookup
                         lk.pop('between', None)
                     lookups.append(_decorate(rng, lk, (len(lk['path'].encode()) + 39) // 32, tid))
+                if lookups and rng.chance(0.1):
+                    # one of the lookups is made by another call that runs to completion inside this one (a nested call)
+                    j_ = rng.randrange(len(lookups))
+                    # (of another code: a START of the same code would re-open, i.e. replace, the enclosing window)
+                    in_name = rng.pick([n_ for n_ in ('BSC_open', 'BSC_read', 'BSC_getpid', 'BSC_stat64', 'BSC_access') if n_ in cat['ids'] and n_ != name])
+                    si_, ei_ = domains.draw(rng, in_name)
+                    lookups[j_] = {'k': 'sys', 'name': in_name, 's': si_, 'e': ei_, 'in': [lookups[j_]]}
                 inner = []
                 fs_near = [k for k in cat['all_ids'] if k >> 16 == cat['ids']['VFS_LOOKUP'] >> 16 and k != cat['ids']['VFS_LOOKUP']]
                 for lk in lookups:
                     if rng.chance(0.3):
                         inner.append(_between(rng, tid))
                     inner.append(lk)
-                    if fs_near and rng.chance(0.3):
+                    if fs_near and lk.get('k') == 'lookup' and rng.chance(0.3):
                         # what the kernel logs right after a lookup: a single record of a neighbouring file-system code
                         # (lookup done, with the vnode and a result word)
                         pref = [k for k in sorted(fs_near) if tool.codes().get(k, '').startswith('VFS_LOOKUP')]
@@ -122,6 +129,8 @@ def generate(rng, index, tier):
                 if rng.chance(0.3):
                     inner.append(_between(rng))
                 s, e = domains.draw(rng, name)
+                if name == 'BSC_posix_spawn' and rng.chance(0.4):
+                    s[rng.randrange(1, 4)] = 0          # no file actions / no attributes: a null pointer argument
                 if rng.chance(0.12):
                     # an earlier call of the same syscall on this thread whose END was lost (its records must not leak into this one)
                     s0, e0 = domains.draw(rng, name)
@@ -136,6 +145,8 @@ def generate(rng, index, tier):
                 ops.append(_decorate(rng, lk, (len(lk['path'].encode()) + 39) // 32))
             elif r < 0.85:
                 g = worlds.op_gstr(rng, ctx.new_string_id(), allow_empty=True)
+                if rng.chance(0.08):
+                    g['id'], g['dbgid'] = rng.pick([(0, 0), (0, g['dbgid']), (g['id'], 0)])      # id 0 / debug id 0 are ids too
                 ops.append(_decorate(rng, g, (len(g['text'].encode()) + 47) // 32))
             else:
                 n = rng.pick([1, 31, 32, 33, 40, 63, 64])
@@ -180,9 +191,23 @@ def _path_fields(trace):
     return out
 
 
+def _window_lookups(op):
+    """The lookups logged inside a call's window, in stream order - also those that a call nested in it made."""
+    out = []
+    for sub in op.get('in', []):
+        if sub['k'] == 'lookup':
+            out.append(sub)
+        elif sub['k'] == 'sys' and not sub.get('noend'):
+            out += _window_lookups(sub)
+        elif sub['k'] == 'seq':
+            out += _window_lookups({'in': sub['ops']})
+    return out
+
+
 def _collect_items(threads):
     """(thread index, op path) of every multi-record item and syscall window, by origin prefix."""
     items = []
+    known_names = set(tool.ids_by_name(None))
 
     def walk(op, origin, encl):
         k = op['k']
@@ -192,6 +217,8 @@ def _collect_items(threads):
                 for j, sub in enumerate(subs):
                     walk(sub, origin + '.b%s_%d' % (ci, j), None)
         elif k == 'sys':
+            if op.get('name') not in known_names:
+                return           # (a name no table has expands to no records at all, nested ops included)
             items.append((origin, op, encl))
             for i, sub in enumerate(op.get('in', [])):
                 walk(sub, origin + '.%d' % i, origin if k == 'sys' else encl)
@@ -228,7 +255,7 @@ def execute(scn):
     for o, op, _encl in _collect_items(scn['threads']):
         if op['k'] == 'sys' and op['name'] in worlds.catalog()['path_names'] and not op.get('noend'):
             want = 4 if op['name'] == 'BSC_posix_spawn' else worlds.catalog()['path_names'][op['name']]
-            if sum(1 for sub in op.get('in', []) if sub['k'] == 'lookup') < want:
+            if len(_window_lookups(op)) < want:
                 short_windows.add(o + '/E')
     for ev in events:
         try:
@@ -380,7 +407,7 @@ def execute(scn):
                 viols.append({'tag': 'syscall-trace-count', 'sig': op['name'], 'detail': '%s at %s: %d traces' % (op['name'], o, len(got))})
                 continue
             t = got[0]
-            paths = [sub['path'] for sub in op.get('in', []) if sub['k'] == 'lookup']
+            paths = [sub['path'] for sub in _window_lookups(op)]
             fields = _path_fields(t)
             shown = [getattr(t, f) or '' for f in fields]
             P, L = len(fields), len(paths)
